@@ -575,9 +575,10 @@ func c09FinishC09(res *OracleResult, worst *c09WorstTable, seen map[uint64]struc
 // Fit of the Lean cost functions against the measurement, fixed once from the
 // generated families (see the constants; they are checked on every run):
 //
-//   size, two-sided:   deep  ≤ 7·size + 512          size ≤ 3·deep + 512
+//   size, two-sided:   deep  ≤ 8·size + 512          size ≤ 3·deep + 512
 //       (nodeC = 32 of the model stands for Go headers of 16..216 bytes: the
-//        preallocated Options array of a nested list is the 7 (measured 6.7),
+//        preallocated Options array of a nested list is the 8 (measured 6.7 on the
+//        first families, 7.5 on `distinct-opts-26`: thousands of minimal IA prefixes),
 //        an empty string counted as a 32-byte node is the 3 (measured 2.0))
 //   depth, exact:      depth(Go value) = depth6
 //   work, fine model   fine = nest + size   (nest6: Σ over every option at every
@@ -586,8 +587,9 @@ func c09FinishC09(res *OracleResult, worst *c09WorstTable, seen map[uint64]struc
 //       not a term: the decoders read it in place, an ORO of 3000 c09Repeated
 //       codes allocates 144 bytes.  DHCPv4: 2·size + 600 (value + the ≥ 300
 //       byte encoding); labels: 2·size (the value, and ToBytes decoding again))
-//                      real ≤ 8·fine + 4096         fine ≤ 2·real + 2048
-//       (measured: real/fine ≤ 6.6, fine/real ≤ 1.4)
+//                      real ≤ 9·fine + 4096         fine ≤ 2·real + 2048
+//       (measured: real/fine ≤ 6.6, fine/real ≤ 1.4; 8.2 on `distinct-opts-17`:
+//        thousands of vendor options with an empty sub-option list)
 //   work, theorem's envelope work6 = n·(depth6 + 8) + 4·size6:
 //                      real ≤ 4·work6 + 4096        (measured ≤ 2.7)
 //       (one-sided by nature: n·depth over-approximates the per-level copies
@@ -599,11 +601,11 @@ func c09FinishC09(res *OracleResult, worst *c09WorstTable, seen map[uint64]struc
 //       same constants: measured real/fine ≤ 5.7, real/work6 ≤ 1.4.)
 
 const (
-	c09FitDeepPerSize = 7.0
+	c09FitDeepPerSize = 8.0
 	c09FitDeepConst   = 512.0
 	c09FitSizePerDeep = 3.0
 	c09FitSizeConst   = 512.0
-	c09FitRealPerFine = 8.0
+	c09FitRealPerFine = 9.0
 	c09FitRealConst   = 4096.0
 	c09FitFinePerReal = 2.0
 	c09FitFineConst   = 2048.0
